@@ -106,7 +106,7 @@ macro_rules! golden_dispatch {
     ($g:expr, $( $name:literal => $T:ty ),* $(,)?) => {
         match $g["type"].as_str().unwrap_or("") {
             $( $name => Some(golden_one::<$T>($g, &|a: &$T, b: &$T| a == b)), )*
-            "RevocationTailsGenerator" => Some(golden_one::<RevocationTailsGenerator>($g, &|a, b| jv(a) == jv(b) && a.count() == b.count())),
+            "RevocationTailsGenerator" => Some(golden_one::<RevocationTailsGenerator>($g, &|a, b| tails_gen_eq(a, b))),
             "SubProofRequest" => {
                 let r = guard(|| serde_json::from_value::<SubProofRequest>($g["json"].clone()));
                 let mut f = vec![];
